@@ -7,8 +7,8 @@
    last reset that reaches a leaf and does not meet its expectation, in walk
    order, flat); [model_outputs] runs the transcription of the Go walks over
    mutable per-verifier state. *)
-From Coq Require Import List Bool Arith.
-From Martian.C13 Require Import Model Proofs Gen_Locks Proofs_Locks.
+From Coq Require Import List Bool Arith Permutation.
+From Martian.C13 Require Import Model Proofs Gen_Locks Proofs_Locks Proofs_Conc.
 Import ListNotations.
 
 (* A query returns exactly the unmet evaluations since the last reset: for
@@ -151,15 +151,99 @@ Theorem C13_concurrent_oracle_is_the_property : forall lo hi obs,
 Proof. exact c13_conc_ok_iff. Qed.
 Print Assumptions C13_concurrent_oracle_is_the_property.
 
-(* oracle of the "operation racing with one parked message" scenario: the
-   answers are those of one of the two sequential orders (the state-machine
-   model, where every operation is one step, has no third outcome:
-   C13_query_exact applied to either order) *)
-Theorem C13_atomicity_oracle_is_the_property : forall c h1 h2 observed,
-  c13_either_ok c h1 h2 observed = true <->
-  observed = spec_outputs c h1 \/ observed = spec_outputs c h2.
-Proof. exact c13_either_ok_iff. Qed.
-Print Assumptions C13_atomicity_oracle_is_the_property.
+(* None lost, none invented: independently of the walk, (v, Some n) is in the
+   specified answer exactly when some message n since the last reset is not
+   an API request, is routed to counting verifier v by the filter conditions
+   on its path ([reaches], an inductive relation) and does not meet v's
+   expectation. *)
+Theorem C13_none_lost_none_invented : forall k t ms v n,
+  In (v, Some n) (expected k ms t) <->
+  exists m, In m ms /\ mid m = n /\ mapi m = false /\ mhit m v = true /\ reaches m v t.
+Proof. exact expected_In_iff. Qed.
+Print Assumptions C13_none_lost_none_invented.
+
+(* What must NOT change: a query changes no state; traffic and resets of one
+   kind leave the other kind's structure alone. *)
+Theorem C13_query_changes_nothing : forall vr s,
+  fst (step vr s Query) = s /\ forall k, fst (step vr s (QueryK k)) = s.
+Proof. exact query_changes_nothing. Qed.
+Print Assumptions C13_query_changes_nothing.
+
+Theorem C13_operations_touch_only_their_kind : forall vr s k k' m,
+  k <> k' ->
+  get k' (fst (step vr s (Traffic k m))) = get k' s /\
+  get k' (fst (step vr s (ResetK k))) = get k' s.
+Proof. exact step_touches_only_its_kind. Qed.
+Print Assumptions C13_operations_touch_only_their_kind.
+
+Theorem C13_response_structures_have_no_pingback : forall c, no_pb (root Res c) = true.
+Proof. exact root_res_no_pb. Qed.
+Print Assumptions C13_response_structures_have_no_pingback.
+
+(* Schedules.  [Merge] (inductive, independent of the search) = the
+   interleavings of two goroutines' operation sequences; the driver's search
+   over [all_merges] is exactly the existential; and every execution in which
+   each operation is an atomic step is accepted.  The atomicity is what
+   fifo.Group's lock discipline provides; that discipline is the first
+   conjunct, read from the source by the translator. *)
+Theorem C13_interleavings_enumerated : forall (a b c : list label),
+  In c (all_merges a b) <-> Merge a b c.
+Proof. exact (@all_merges_spec label). Qed.
+Print Assumptions C13_interleavings_enumerated.
+
+Theorem C13_serial_search_is_the_existential : forall c pre t1 t2 post observed,
+  c13_serial_ok c pre t1 t2 post observed = true <->
+  exists mid, Merge t1 t2 mid /\ observed = spec_outputs c (pre ++ mid ++ post).
+Proof. exact c13_serial_ok_iff. Qed.
+Print Assumptions C13_serial_search_is_the_existential.
+
+Theorem C13_atomic_executions_accepted :
+  discipline_ok gen_locks = true /\
+  forall c pre t1 t2 post mid,
+    Merge t1 t2 mid ->
+    c13_serial_ok c pre t1 t2 post (model_outputs repaired c (pre ++ mid ++ post)) = true.
+Proof. exact (conj source_lock_discipline serial_impl_accepted). Qed.
+Print Assumptions C13_atomic_executions_accepted.
+
+(* A query that reads every verifier at its own moment, both kinds, as
+   verify.Handler does: with distinct messages and verifiers the driver's
+   sandwich oracle accepts it. *)
+Theorem C13_nonatomic_queries_accepted : forall c preq pres allq alls hq hs,
+  (forall v m, In m preq -> In m (hq v)) -> (forall v m, In m (hq v) -> In m allq) ->
+  (forall v m, In m pres -> In m (hs v)) -> (forall v m, In m (hs v) -> In m alls) ->
+  (forall v, NoDup (map mid (hq v))) -> (forall v, NoDup (map mid (hs v))) ->
+  (forall v v' n, In n (map mid (hq v)) -> In n (map mid (hs v')) -> False) ->
+  NoDup (leaf_ids (root Req c)) -> NoDup (leaf_ids (root Res c)) ->
+  c13_conc_ok (expected_both c preq pres) (expected_both c allq alls) (answer_at c hq hs) = true.
+Proof. exact conc_impl_accepted. Qed.
+Print Assumptions C13_nonatomic_queries_accepted.
+
+(* After all racing traffic has returned, whatever order the schedule let the
+   messages through, the answer is the specified set, nothing twice. *)
+Theorem C13_after_join_accepted : forall c mq ms mq' ms',
+  Permutation mq mq' -> Permutation ms ms' ->
+  NoDup (map mid mq) -> NoDup (map mid ms) ->
+  (forall n, In n (map mid mq) -> In n (map mid ms) -> False) ->
+  NoDup (leaf_ids (root Req c)) -> NoDup (leaf_ids (root Res c)) ->
+  c13_same_set_ok (expected_both c mq ms) (expected_both c mq' ms') = true.
+Proof. exact final_impl_accepted. Qed.
+Print Assumptions C13_after_join_accepted.
+
+Theorem C13_same_set_oracle_is_the_property : forall want obs,
+  c13_same_set_ok want obs = true <->
+  (forall f, In f want -> In f obs) /\ (forall f, In f obs -> In f want) /\ NoDup obs.
+Proof. exact c13_same_set_ok_iff. Qed.
+Print Assumptions C13_same_set_oracle_is_the_property.
+
+Theorem C13_same_set_is_a_permutation : forall want obs,
+  NoDup want -> c13_same_set_ok want obs = true -> Permutation want obs.
+Proof. exact c13_same_set_ok_perm. Qed.
+Print Assumptions C13_same_set_is_a_permutation.
+
+Theorem C13_answer_oracle_is_the_property : forall want obs,
+  c13_answer_ok want obs = true <-> obs = want.
+Proof. exact c13_answer_ok_iff. Qed.
+Print Assumptions C13_answer_oracle_is_the_property.
 
 (* The atomicity assumption tied to the source: the lock table regenerated
    from fifo/fifo_group.go, martianhttp/martianhttp.go and multierror.go on
@@ -209,3 +293,35 @@ Proof. vm_compute. repeat split; reflexivity. Qed.
 Example C13_example_distinct_verifiers :
   NoDup (leaf_ids (root Req ex_cfg)) /\ NoDup (leaf_ids (root Res ex_cfg)).
 Proof. vm_compute. split; repeat constructor; simpl; intuition congruence. Qed.
+
+(* Non-vacuity of the schedule theorems: a message racing with a reset, both
+   orders; a non-atomic query seeing the racing message at one verifier only;
+   a join after two messages that went through in the other order. *)
+Example C13_example_merge :
+  Merge [Traffic Res (ex_m 11 false false)] [Reset] [Reset; Traffic Res (ex_m 11 false false)]
+  /\ c13_serial_ok ex_cfg [] [Traffic Res (ex_m 11 false false)] [Reset] [Query]
+       [[(6, None); (1, Some 11); (5, Some 11)]] = true
+  /\ c13_serial_ok ex_cfg [] [Traffic Res (ex_m 11 false false)] [Reset] [Query]
+       [[(6, None); (5, Some 11)]] = false.
+Proof. split; [repeat constructor|vm_compute; split; reflexivity]. Qed.
+
+Example C13_example_nonatomic_hypotheses :
+  let m := ex_m 11 false false in
+  let hs := fun v => if Nat.eqb v 5 then [m] else [] in
+  (forall v x, In x (@nil msg) -> In x (hs v)) /\ (forall v x, In x (hs v) -> In x [m])
+  /\ (forall v, NoDup (map mid (hs v)))
+  /\ answer_at ex_cfg (fun _ => []) hs = [(6, None); (5, Some 11)]
+  /\ c13_conc_ok (expected_both ex_cfg [] []) (expected_both ex_cfg [] [m]) (answer_at ex_cfg (fun _ => []) hs) = true.
+Proof.
+  cbv zeta. repeat split.
+  - intros v x [].
+  - intros v x H. destruct (Nat.eqb v 5); [exact H|destruct H].
+  - intros v. destruct (Nat.eqb v 5); repeat constructor. intros [].
+Qed.
+
+Example C13_example_after_join :
+  let a := ex_m 11 false false in let b := ex_m 13 false true in
+  Permutation [a; b] [b; a]
+  /\ expected_both ex_cfg [] [a; b] <> expected_both ex_cfg [] [b; a]
+  /\ c13_same_set_ok (expected_both ex_cfg [] [a; b]) (expected_both ex_cfg [] [b; a]) = true.
+Proof. cbv zeta. split; [constructor|split; [vm_compute; discriminate|vm_compute; reflexivity]]. Qed.
